@@ -8,6 +8,8 @@ CONSTANTS FlowSet,        \* flow files of the instance
           Endpoints, Methods, MaxNth, WithBadB64,
           MxOld,          \* contents of the user's metrics file in the old configurations ("none": the built-in default is in force)
           GwOld,          \* contents of the gateway config file in the old configurations ("none" = absent)
+          MaxUpdates,     \* length of the histories of updates on one gateway (1 = single updates)
+          PayloadCats,    \* categories of files a payload may carry (1 flows, 4 gateway config, 5 metrics config)
           AnchorFlows     \* flows that exist (v1) in every old configuration (shrinks the quick instance; {} = no restriction)
 
 PathsMC == FlowSet \cup {"gateway_config.yaml", "metrics.yaml", "default_metrics.yaml"}
@@ -29,7 +31,8 @@ Opts == {o \in [PathsMC -> {"absent", "v2", "bad", "g2", "gbad", "m2", "mbad"}] 
             /\ \A f \in FlowSet : o[f] \in {"absent", "v2", "bad"}
             /\ o["gateway_config.yaml"] \in {"absent", "g2", "gbad"}
             /\ o["metrics.yaml"] \in {"absent", "m2", "mbad"}
-            /\ o["default_metrics.yaml"] = "absent"}
+            /\ o["default_metrics.yaml"] = "absent"
+            /\ \A q \in PathsMC : CatMC[q] \notin PayloadCats => o[q] = "absent"}
 PayloadOf(o) == [q \in {r \in PathsMC : o[r] # "absent"} |-> o[q]]
 
 Faults == {[point |-> "none", nth |-> 0]}
@@ -39,7 +42,8 @@ Faults == {[point |-> "none", nth |-> 0]}
           \cup {[point |-> "health", nth |-> 1]}
 
 Mk(e, m, d, pl, dec, bb, f) ==
-    [endpoint |-> e, method |-> m, disk |-> d, payload |-> pl, decodable |-> dec, badb64 |-> bb, fault |-> f, tree |-> ""]
+    [endpoint |-> e, method |-> m, disk |-> d, payload |-> pl, decodable |-> dec, badb64 |-> bb, fault |-> f, tree |-> "",
+     n |-> 0, prev |-> << >>]
 NoFault == [point |-> "none", nth |-> 0]
 
 \* /apply_flows payloads: at least one flow, no metrics file (the handler would write it outside the tree)
@@ -52,17 +56,23 @@ TreeTag(d) == TreeOf([q \in PathsMC |-> d[q]])
 \* the model's stand-in for the SHA-256 of the tree is the tree itself
 Pick(cs) == pc = "pick" /\ Load([cs EXCEPT !.tree = TreeTag(cs.disk)])
 
-PickMC == pc = "pick" /\ \E e \in Endpoints, d \in Disks :
+\* the updates of the instance (the old tree d matters for the first update of a history only)
+Updates(e, d, Do(_)) ==
     \* every payload x every single failure, through the proper verb
-    \/ \E o \in OptsFor(e), f \in Faults : Pick(Mk(e, "PUT", d, PayloadOf(o), TRUE, {}, f))
+    \/ \E o \in OptsFor(e), f \in Faults : Do(Mk(e, "PUT", d, PayloadOf(o), TRUE, {}, f))
     \* the same payloads through another verb
-    \/ \E o \in OptsFor(e), m \in Methods \ {"PUT"} : Pick(Mk(e, m, d, PayloadOf(o), TRUE, {}, NoFault))
+    \/ \E o \in OptsFor(e), m \in Methods \ {"PUT"} : Do(Mk(e, m, d, PayloadOf(o), TRUE, {}, NoFault))
     \* one file of the payload is not valid base64
     \/ /\ WithBadB64
-       /\ \E o \in OptsFor(e) : \E q \in DOMAIN PayloadOf(o) : Pick(Mk(e, "PUT", d, PayloadOf(o), TRUE, {q}, NoFault))
+       /\ \E o \in OptsFor(e) : \E q \in DOMAIN PayloadOf(o) : Do(Mk(e, "PUT", d, PayloadOf(o), TRUE, {q}, NoFault))
     \* the body is not JSON at all
-    \/ Pick(Mk(e, "PUT", d, << >>, FALSE, {}, NoFault))
+    \/ Do(Mk(e, "PUT", d, << >>, FALSE, {}, NoFault))
 
-NextMC == PickMC \/ Next
+PickMC == pc = "pick" /\ \E e \in Endpoints, d \in Disks : Updates(e, d, Pick)
+
+\* the next update of a history: same gateway, tree / engine / backup object as the previous update left them
+PickNextMC == pc = "done" /\ c.n < MaxUpdates /\ \E e \in Endpoints : Updates(e, << >>, LoadNext)
+
+NextMC == PickMC \/ PickNextMC \/ Next
 SpecMC == Init /\ [][NextMC]_ivars
 =============================================================================
